@@ -254,3 +254,8 @@
 ;@ghost pins (Seq String)
 ;@ghost pinBackends (Seq Any)
 ;@ghost unpins (Seq String)
+;@ghost stamps (Seq Int)
+;@ghost stampAddr (Seq String)
+;@ghost stampPort (Seq Int)
+;@ghost npiRS (Seq Bool)
+;@ghost npRS (Seq Bool)
